@@ -13,6 +13,9 @@ from .common import hashseed_for
 from .registry import REG
 
 VERIF = os.path.dirname(os.path.dirname(os.path.abspath(__file__)))
+# dev tools (tools/run_seeded.py, sensitivity self-test) send replays/evidence of runs against patched scratch trees elsewhere
+REPLAY_DIR = os.environ.get("XSIM_REPLAY_DIR") or os.path.join(VERIF, "replays")
+EVIDENCE_DIR = os.environ.get("XSIM_EVIDENCE_DIR") or os.path.join(VERIF, "evidence")
 PY = build.PY
 DEFAULT_SEED = 20260929
 
@@ -107,10 +110,10 @@ def replay_file(scratch, path, prop=None):
 
 
 def write_evidence(prop, tier, seed, level, coverage, wall, nviol, assumptions):
-    os.makedirs(os.path.join(VERIF, "evidence"), exist_ok=True)
+    os.makedirs(EVIDENCE_DIR, exist_ok=True)
     ev = {"property_id": prop, "tier": tier, "seed": seed, "level": level, "coverage": coverage,
           "assumptions": assumptions, "wall_s": round(wall, 2), "violations": nviol}
-    p = os.path.join(VERIF, "evidence", "%s.json" % prop)
+    p = os.path.join(EVIDENCE_DIR, "%s.json" % prop)
     tmp = p + ".tmp"
     with open(tmp, "w") as fh:
         json.dump(ev, fh, indent=1, default=repr)
@@ -147,7 +150,7 @@ def run_check(prop, tier="quick", seed=None, nproc=None, runs=None, budget=None,
     known_cls = sorted(set(k["class"] for k in known if "class" in k))
     batches = plan_batches(prop, tier, seed, n_runs, bs, builds)
     base_args = ["--prop", prop, "--seed", str(seed), "--tier", tier, "--known", ",".join(known_cls),
-                 "--replay-dir", os.path.join(VERIF, "replays")]
+                 "--replay-dir", REPLAY_DIR]
     results = [None] * len(batches)
     t_search0 = time.time()
     stop = {"flag": False}
@@ -482,8 +485,8 @@ def run_cross(prop, tier="quick", seed=None, nproc=None, runs=None, budget=None)
         k = 0
         while k < min(len(s0), len(s1)) and s0[k] == s1[k]:
             k += 1
-        os.makedirs(os.path.join(VERIF, "replays"), exist_ok=True)
-        path = os.path.join(VERIF, "replays", "%s-%d-%d.json" % (prop, seed, run))
+        os.makedirs(REPLAY_DIR, exist_ok=True)
+        path = os.path.join(REPLAY_DIR, "%s-%d-%d.json" % (prop, seed, run))
         with open(path, "w") as fh:
             json.dump({"property": prop, "seed": seed, "run": run, "tier": tier, "configs": pair,
                        "violation": {"cls": prop + ".transcript", "step": k,
